@@ -561,14 +561,16 @@ def _simplify(trace):
 
 class C03Engine:
     name = "tokstream/C03"
-    RULE = ("one run = one seeded schedule: 1-3 stream clients, each with a generated piece (1-6 bars, 1-4 tracks, per-bar "
-            "signatures, empty bars, unequal track lengths), a partition of its bars into consecutive call groups, one of three "
-            "chunk-production routes (R1 harness bars, R2 sequences_split_bars, R3 Sequence.split) and a state dictionary, taking "
-            "turns on one shared tokeniser; between calls the injector may restart a client (new tokeniser of equal configuration, "
-            "deep/shallow copy of the state dict). Tokeniser flags, track count, pitch range, note-value subset, velocity bins and "
-            "bar-token insertion are drawn per run. distinct_nontrivial counts distinct abstract schedules (crc of the sequence of "
-            "(client, fault, chunk index, route)) among runs with a multi-chunk stream AND >=1 fired restart/copy fault or "
-            "interleaving of another client on the same tokeniser.")
+    RULE = ("one run = one seeded schedule: 1-3 (thorough: up to 4) stream clients, each with a generated piece (1-6 bars, thorough "
+            "up to 10; 1-4 tracks; per-bar signatures from a small per-piece palette so that signatures recur; literally repeated bars; "
+            "per-piece note-value and velocity palettes; empty bars; unequal track lengths; sometimes a second stream playing the same "
+            "material), a partition of its bars into consecutive call groups, one of three chunk-production routes (R1 harness bars, "
+            "R2 sequences_split_bars, R3 Sequence.split) and a state dictionary, taking turns on one shared tokeniser; between calls the "
+            "injector may restart a client (new tokeniser of equal configuration; deep / shallow copy or JSON round trip of the state "
+            "dict). Flags, track count, pitch range, note-value subset, step sizes, signature range, velocity bins and bar-token "
+            "insertion are drawn per run. distinct_nontrivial counts distinct abstract schedules (crc of the sequence of (client, fault, "
+            "chunk index, route)) among runs with a multi-chunk stream AND >=1 fired restart / copy fault or interleaving of another "
+            "client on the same tokeniser.")
     REAL = ["MultiTrackLargeVocabularyNotelikeTokeniser.tokenise / detokenise", "Sequence.merge / split / concatenate / sequences_split_bars",
             "Bar", "everything they call"]
     STUB = ["nothing is stubbed; the simulator plays the stream clients and the restart injector"]
